@@ -221,7 +221,9 @@ theorem addRr_item (hint : Hint) (owner : WName) (ty cls ttl : Nat) (rd : List U
     (h : addRr hint owner ty cls ttl rd s = (.ok (), s')) :
     ∃ k, Item s' s.cursor k ∧ s.cursor + k + 10 ≤ s'.cursor ∧
       be16 s'.octets (s.cursor + k + 8) = (s'.cursor - (s.cursor + k + 10)) % 65536 ∧
-      BytesAt s'.octets (s.cursor + k) (u16be ty) := by
+      BytesAt s'.octets (s.cursor + k) (u16be ty) ∧
+      ∃ p sB, writeHintedName hint owner { s with gCtx := .owner } = (.ok p, sB) ∧
+        sB.cursor = s.cursor + k ∧ ∀ i, i < sB.cursor → s'.octets[i]? = sB.octets[i]? := by
   rw [addRr_eq] at h
   obtain ⟨_, s1, h1, h⟩ := M.bind_ok_inv h
   obtain ⟨_, s2, h2, h⟩ := M.bind_ok_inv h
@@ -295,7 +297,7 @@ theorem addRr_item (hint : Hint) (owner : WName) (ty cls ttl : Nat) (rd : List U
                 obtain ⟨hsz, hs'⟩ := write_ok_inv _ _ _ _ _ h
                 have hcH : s4.cursor + 2 ≤ sH.cursor := hfr.cur
                 have preH : ∀ i, i < s4.cursor + 2 → sH.octets[i]? = s4.octets[i]? := fun i hi => hfr.pre i hi
-                refine ⟨sB.cursor - s.cursor, ?_, ?_, ?_, ?_⟩
+                refine ⟨sB.cursor - s.cursor, ?_, ?_, ?_, ?_, p, sB, rfl, by omega, ?_⟩
                 · -- the item, moved along
                   refine item_move (lo := 0) itB (fun _ _ => Nat.zero_le _) ?_ ?_ ?_
                   · intro i _ hi
@@ -323,5 +325,48 @@ theorem addRr_item (hint : Hint) (owner : WName) (ty cls ttl : Nat) (rd : List U
                   rw [hl2] at hi
                   rw [writeAt_get_lt _ _ _ _ (by omega), preH _ (by omega)]
                   exact ty4 i (by rw [hl2]; exact hi)
+                · intro i hi
+                  rw [hs']
+                  show (writeAt sH.octets s4.cursor _)[i]? = _
+                  rw [writeAt_get_lt _ _ _ _ (by omega), preH _ (by omega), pre4 _ hi]
+
+
+/-- **the owner of a record decodes to the name given**, in every compression mode: after a
+    successful `add_rr` the independent decoder, run on any message that agrees with the buffer
+    below the cursor, reads at the record's start a name with the owner's label count that equals
+    the owner up to ASCII case (octet for octet unless the mode is `Standard`) and occupies exactly
+    the `k` octets the writer wrote -/
+theorem addRr_owner_decodes (hint : Hint) (owner : WName) (ty cls ttl : Nat) (rd : List UInt8) (s s' : State)
+    (hw : WInv s) (hwf : owner.WF) (hh : HintOK s hint owner)
+    (h : addRr hint owner ty cls ttl rd s = (.ok (), s')) (msg : Bytes)
+    (hmsg : ∀ i, i < s'.cursor → msg[i]? = s'.octets[i]?) :
+    ∃ w k, specDecodeName msg s.cursor = some (w, owner.len, k) ∧ s.cursor + k + 10 ≤ s'.cursor ∧
+      w.map lowerU8 = owner.wire.map lowerU8 ∧ (s.mode ≠ .standard → w = owner.wire) := by
+  obtain ⟨k, hit, hlen, _, _, p, sB, hwn, hcB, hpre⟩ := addRr_item hint owner ty cls ttl rd s s' hw hwf hh h
+  have e1 := ext_setCtx s .owner
+  have hwA : WInv { s with gCtx := .owner } := winv_ext hw e1 rfl rfl rfl rfl
+  have hhA : HintOK { s with gCtx := .owner } hint owner := hintOK_ext hh e1 rfl rfl rfl rfl
+  obtain ⟨w, k0, hd, hcase, hexact⟩ := writeHintedName_round_trip hint owner _ hwA hwf hhA p (by rw [hwn])
+  rw [hwn] at hd
+  simp only at hd
+  have hs := writeHintedName_spec hint owner _ hwA hwf hhA
+  rw [hwn] at hs
+  obtain ⟨hwB, _, _, _, _, _, hck⟩ := hs.ok p rfl
+  simp only at hck
+  have hcsB : sB.cursor ≤ sB.octets.size := Nat.le_trans hwB.cur_av hwB.av_size
+  -- the chunk length
+  have hcm : ChunkAt (sB.octets.extract 0 sB.cursor) s.cursor (sB.cursor - s.cursor) :=
+    chunkAt_frame hck (fun i _ h2 => extract_prefix_get _ _ hcsB _ (by omega))
+  have hk0 := specDecodeName_chunk hcm hd
+  subst hk0
+  -- move the decoding to `msg`
+  have hD := (specDecodeName_iff _ _ _ _ _).mp hd
+  have hszB : (sB.octets.extract 0 sB.cursor).size = sB.cursor := by simp; omega
+  have hagree : ∀ i, i < (sB.octets.extract 0 sB.cursor).size → msg[i]? = (sB.octets.extract 0 sB.cursor)[i]? := by
+    intro i hi
+    rw [hszB] at hi
+    rw [extract_prefix_get _ _ hcsB _ hi, hmsg i (by omega), hpre i hi]
+  have hD' : DecodesName msg s.cursor w owner.len (sB.cursor - s.cursor) := ⟨decodes_prefix hagree hD.1, hD.2⟩
+  exact ⟨w, sB.cursor - s.cursor, (specDecodeName_iff _ _ _ _ _).mpr hD', by omega, hcase, hexact⟩
 
 end QV.Writer
